@@ -1,7 +1,17 @@
-"""./check <property> [--tier quick|thorough] [--replay <file>]
+"""./check <property> [--tier quick|thorough] [--replay <file>] [--update-baseline]
 
 Exit codes: 0 held (after printing KNOWN-FINDING lines), 1 VIOLATION printed, 2 undecided
-(unknown / timeout / outside-subset / stale contract: never reported as a violation), 3 crash.
+(solver unknown on unchanged code / outside-subset / stale contract: never reported as a violation),
+3 checker error (including the vacuity guards).
+
+Decision rule for an obligation that is not discharged:
+  sat + counter-model replays natively on the real code          -> VIOLATION replay=<file>
+  sat/unknown, bounded native search of that function finds an input -> VIOLATION replay=<file>
+  sat, nothing replays                                           -> VIOLATION ... no-failing-input-found
+  unknown, and the function's source differs from the committed baseline on which every obligation of it
+  was discharged (an obligation that passed on the unchanged tree and now fails)
+                                                                 -> VIOLATION ... no-failing-input-found
+  unknown on unchanged source (solver flakiness)                 -> UNDECIDED, exit 2
 """
 import importlib
 import json
@@ -23,12 +33,17 @@ def load_known():
     return json.load(open(p)).get("findings", [])
 
 
+def replay_dir():
+    d = os.environ.get("PYVC_REPLAY_DIR") or os.path.join(HERE, "replays")
+    os.makedirs(d, exist_ok=True)
+    return d
+
+
 def write_replay(pid, ob, fnres, kind, extra=None):
-    os.makedirs(os.path.join(HERE, "replays"), exist_ok=True)
     safe = "".join(c if c.isalnum() or c in "._-" else "_" for c in ob["name"])[:100]
-    path = os.path.join(HERE, "replays", "%s-%s.json" % (pid, safe))
-    rec = dict(property=pid, obligation=ob["name"], kind=ob["kind"], function=fnres["qual"], file=fnres["file"],
-               line=ob["line"], path=ob["path"], solver_status=ob["status"], backend=ob["backend"],
+    path = os.path.join(replay_dir(), "%s-%s.json" % (pid, safe))
+    rec = dict(property=pid, obligation=ob["name"], kind=ob["kind"], function=fnres["qual"], file=fnres.get("file"),
+               line=ob.get("line"), path=ob.get("path"), solver_status=ob["status"], backend=ob["backend"],
                model=ob.get("model"), replay_kind=kind, extra=extra,
                how_to_replay="cd /verif && ./check %s --replay %s" % (pid, os.path.relpath(path, HERE)))
     if ob.get("smt2"):
@@ -41,19 +56,23 @@ def write_replay(pid, ob, fnres, kind, extra=None):
     return path
 
 
-def native_replay(pid, fnres, ob):
-    """Run the counter-model against the real code under the repository's interpreter.
-    -> (confirmed: bool|None, text).  None = no replay possible for this obligation."""
-    if not ob.get("model") and not ob.get("pyinputs"):
-        return None, "no model"
-    req = dict(property=pid, qual=fnres["qual"], model=ob.get("model"), pyinputs=ob.get("pyinputs"),
-               obligation=ob["name"], kind=ob["kind"])
+def native_env():
     env = dict(os.environ)
     env["PYTHONPATH"] = REPO + ":" + HERE
     env["PYTHONDONTWRITEBYTECODE"] = "1"
+    return env
+
+
+def native_replay(pid, fnres, ob):
+    """-> (confirmed: bool|None, text).  None = no replay possible for this obligation."""
+    py = ob.get("pyinputs")
+    if not py:
+        return None, "no concretised inputs"
+    req = dict(property=pid, qual=fnres["qual"], model=ob.get("model"), pyinputs=py,
+               obligation=ob["name"], kind=ob["kind"])
     try:
         p = subprocess.run([NATIVE_PY, "-m", "pyvc.native"], input=json.dumps(req), capture_output=True, text=True,
-                           env=env, cwd=HERE, timeout=120)
+                           env=native_env(), cwd=HERE, timeout=120)
     except subprocess.TimeoutExpired:
         return None, "native replay timed out"
     out = p.stdout.strip().splitlines()
@@ -61,20 +80,38 @@ def native_replay(pid, fnres, ob):
     try:
         r = json.loads(last)
     except Exception:
-        return None, "native replay produced no verdict: %s %s" % (p.stdout[-500:], p.stderr[-1500:])
+        return None, "native replay produced no verdict: %s %s" % (p.stdout[-300:], p.stderr[-800:])
     return r.get("confirmed"), r.get("text", "")
 
 
-def match_known(known, pid, obname, fixed=False):
+def native_search(pid, quals, seed, budget, time_limit=60.0):
+    if not quals:
+        return {}
+    req = dict(property=pid, quals=sorted(quals), seed=seed, budget=budget, time_limit=time_limit)
+    try:
+        p = subprocess.run([NATIVE_PY, "-m", "pyvc.native_search"], input=json.dumps(req), capture_output=True,
+                           text=True, env=native_env(), cwd=HERE, timeout=time_limit * len(quals) + 120)
+        out = p.stdout.strip().splitlines()
+        return json.loads(out[-1])
+    except Exception as e:
+        return dict(_error="%s: %s" % (type(e).__name__, e))
+
+
+def match_known(known, pid, obname):
     for k in known:
         if k.get("property") != pid:
-            continue
-        if bool(k.get("fixed")) != fixed:
             continue
         pat = k.get("obligation")
         if pat and (pat == obname or (pat.endswith("*") and obname.startswith(pat[:-1]))):
             return k
     return None
+
+
+def load_baseline(pid):
+    p = os.path.join(HERE, "baseline", "%s.json" % pid)
+    if os.path.exists(p):
+        return json.load(open(p))
+    return {}
 
 
 def main(argv=None):
@@ -85,6 +122,7 @@ def main(argv=None):
     pid = argv[0]
     tier = os.environ.get("VERIF_TIER", "quick")
     replay = None
+    update_baseline = False
     i = 1
     while i < len(argv):
         if argv[i] == "--tier":
@@ -93,16 +131,22 @@ def main(argv=None):
         elif argv[i] == "--replay":
             replay = argv[i + 1]
             i += 2
+        elif argv[i] == "--update-baseline":
+            update_baseline = True
+            i += 1
         else:
             i += 1
-    seed = int(os.environ.get("VERIF_SEED", "0") or 0)
+    try:
+        seed = int(os.environ.get("VERIF_SEED", "0") or 0)
+    except ValueError:
+        seed = 0
     sys.path.insert(0, HERE)
     os.chdir(HERE)
     if replay:
         return do_replay(pid, replay)
     t0 = time.time()
     try:
-        return run_check(pid, tier, seed, t0)
+        return run_check(pid, tier, seed, t0, update_baseline)
     except SystemExit:
         raise
     except Exception:
@@ -114,7 +158,8 @@ def main(argv=None):
 def do_replay(pid, path):
     rec = json.load(open(path))
     fnres = dict(qual=rec["function"], file=rec.get("file"))
-    ob = dict(name=rec["obligation"], kind=rec["kind"], model=rec.get("model"), pyinputs=(rec.get("extra") or {}).get("pyinputs"))
+    ob = dict(name=rec["obligation"], kind=rec["kind"], model=rec.get("model"),
+              pyinputs=(rec.get("extra") or {}).get("pyinputs"))
     ok, text = native_replay(pid, fnres, ob)
     print(text)
     if ok:
@@ -124,7 +169,7 @@ def do_replay(pid, path):
     return 0
 
 
-def run_check(pid, tier, seed, t0):
+def run_check(pid, tier, seed, t0, update_baseline=False):
     from pyvc import run as runner
     from pyvc import axioms
     if tier == "thorough":
@@ -133,14 +178,17 @@ def run_check(pid, tier, seed, t0):
     mod = importlib.import_module("contracts." + pid)
     spec = mod.S
     known = load_known()
+    baseline = load_baseline(pid)
     spec_results = runner.run_property(pid)[1]
-    violations, undecided, crashes, known_hits = [], [], [], []
+    failing = []          # (obligation dict, function result)
+    undecided, crashes, known_hits = [], [], []
     n_obl = n_dis = 0
     backends = {}
     samples = []
     funcs = []
     solver_s = 0.0
     dropped, assumptions, inlined = set(), set(), set()
+    new_baseline = {}
     for r in spec_results:
         funcs.append(dict(function=r["qual"], file=r["file"], line=r["line"], sha=r["digest"], paths=r["paths"],
                           returns=r["returns"], raises=r["raises"], obligations=len(r["obligations"]),
@@ -157,9 +205,14 @@ def run_check(pid, tier, seed, t0):
         if not r["obligations"]:
             crashes.append((r["qual"], "vacuity guard: no obligation generated"))
             continue
+        if r.get("unreached"):
+            crashes.append((r["qual"], "vacuity guard: statements unreachable under the contract's precondition: %s"
+                            % "; ".join(r["unreached"][:5])))
+            continue
         if r["returns"] + sum(r["raises"].values()) == 0:
             crashes.append((r["qual"], "vacuity guard: no path reaches a return or raise (contradictory requires?)"))
             continue
+        all_ok = True
         for o in r["obligations"]:
             n_obl += 1
             solver_s += o["seconds"]
@@ -169,29 +222,54 @@ def run_check(pid, tier, seed, t0):
                 if len(samples) < 6 and o["backend"] != "simplifier":
                     samples.append(dict(obligation=o["name"], kind=o["kind"], path=o["path"], backend=o["backend"],
                                         seconds=o["seconds"]))
-            elif o["status"] == "sat":
+            else:
+                all_ok = False
                 k = match_known(known, pid, o["name"])
                 if k is not None:
                     known_hits.append((k, o, r))
                 else:
-                    violations.append((o, r))
-            else:
-                undecided.append((r["qual"], "obligation %s: solver %s" % (o["name"], o["status"])))
-    # bounded stand-ins (never counted as proved)
+                    failing.append((o, r))
+        if all_ok:
+            new_baseline[r["qual"]] = dict(digest=r["digest"], callees=sorted(r["inlined"]),
+                                           obligations=len(r["obligations"]))
+
+    # ---- bounded native search: for failing functions always; as stand-in/audit per tier
+    gen_quals = [q for q in list(spec.fns) if hasattr(mod, "native_cases") and
+                 getattr(spec.fns[q], "src", None) is None and not spec.fns[q].abstract
+                 and not (spec.fns[q].inline and not spec.fns[q].ensures)]
+    fail_quals = sorted(set(r["qual"] for o, r in failing if r["qual"] in spec.fns))
+    budget = int(os.environ.get("PYVC_NATIVE_BUDGET", "0")) or (3000 if tier == "thorough" else 300)
+    search_res = {}
+    if gen_quals:
+        search_res = native_search(pid, gen_quals, seed, budget, time_limit=(120.0 if tier == "thorough" else 20.0))
     bounded = []
-    bfun = getattr(mod, "bounded", None)
-    if bfun is not None:
-        for b in bfun(tier, seed):
-            bounded.append(b)
+    native_fail = {}
+    if "_error" in search_res:
+        crashes.append(("native-search", search_res["_error"]))
+        search_res = {}
+    for q, sr in search_res.items():
+        if sr.get("error"):
+            crashes.append((q, "native search: " + sr["error"]))
+            continue
+        if sr.get("note") == "no generator" or (sr["evaluations"] == 0 and not sr["failures"]):
+            continue
+        bounded.append(dict(name=q, kind="run-time contract evaluation on generated inputs (bounded stand-in)",
+                            evaluations=sr["evaluations"], distinct_nontrivial=sr["nontrivial"], skipped=sr["skipped"],
+                            samples=sr.get("samples", [])))
+        real = [f for f in sr["failures"] if not f.get("harness")]
+        for f in sr["failures"]:
+            if f.get("harness"):
+                crashes.append((q, f["text"]))
+        if real:
+            native_fail[q] = real[0]
+    extra_bounded = getattr(mod, "bounded", None)
+    bounded_viol = []
+    if extra_bounded is not None:
+        for b in extra_bounded(tier, seed):
+            bounded.append(dict((k, v) for k, v in b.items() if k != "violations"))
             for v in b.get("violations", []):
-                k = match_known(known, pid, v["name"])
-                if k is not None:
-                    known_hits.append((k, dict(name=v["name"], kind="bounded", status="failed", backend="native",
-                                               line=0, path="-", model=None, pyinputs=v.get("inputs")), dict(qual=b["name"], file=None)))
-                else:
-                    violations.append((dict(name=v["name"], kind="bounded", status="failed", backend="native", line=0,
-                                            path="-", model=None, pyinputs=v.get("inputs"), confirmed=True,
-                                            text=v.get("text", "")), dict(qual=b["name"], file=None)))
+                bounded_viol.append((b, v))
+
     exit_code = 0
     printed = set()
     for k, o, r in known_hits:
@@ -201,25 +279,73 @@ def run_check(pid, tier, seed, t0):
         printed.add(key)
         print("KNOWN-FINDING: property=%s %s" % (pid, k.get("what", k.get("obligation"))))
     nviol = 0
-    reported = set()
-    for o, r in violations:
-        if o["name"] in reported:
-            continue
-        reported.add(o["name"])
-        if o.get("confirmed"):
-            ok, text = True, o.get("text", "")
-        else:
-            ok, text = native_replay(pid, r, o)
-        path = write_replay(pid, o, r, "native-confirmed" if ok else "no-failing-input-found",
-                            extra=dict(native=text, pyinputs=o.get("pyinputs")))
+    reported_fn = set()
+    reported_ob = set()
+
+    def report(o, r, confirmed, text, pyinputs=None):
+        nonlocal nviol, exit_code
+        path = write_replay(pid, o, r, "native-confirmed" if confirmed else "no-failing-input-found",
+                            extra=dict(native=text, pyinputs=pyinputs if pyinputs is not None else o.get("pyinputs")))
         rel = os.path.relpath(path, HERE)
         nviol += 1
         exit_code = 1
-        print("FAILED-OBLIGATION %s [%s/%s] %s" % (o["name"], o["status"], o["backend"], (text or "")[:300]))
-        if ok:
+        print("FAILED-OBLIGATION %s [%s/%s] %s" % (o["name"], o["status"], o["backend"], (text or "")[:400]))
+        if confirmed:
             print("VIOLATION property=%s replay=%s" % (pid, rel))
         else:
             print("VIOLATION property=%s replay=%s no-failing-input-found" % (pid, rel))
+
+    for o, r in failing:
+        if o["name"] in reported_ob:
+            continue
+        reported_ob.add(o["name"])
+        q = r["qual"]
+        ok, text = (None, "")
+        if o["status"] == "sat":
+            ok, text = native_replay(pid, r, o)
+        if ok:
+            report(o, r, True, text)
+            reported_fn.add(q)
+            continue
+        if q in native_fail:
+            if q not in reported_fn:
+                f = native_fail[q]
+                report(o, r, True, "bounded native search: " + f["text"], pyinputs=dict(recipe=f["recipe"]))
+                reported_fn.add(q)
+            continue
+        if o["status"] == "sat":
+            report(o, r, False, "solver counter-model did not replay natively (%s)" % (text or "")[:200])
+            continue
+        b = baseline.get(q)
+        changed = b is not None and (b.get("digest") != r["digest"])
+        if changed:
+            report(o, r, False, "obligation was discharged on the baseline source of %s (sha %s) and is %s on the "
+                                "current source (sha %s)" % (q, b.get("digest"), o["status"], r["digest"]))
+        else:
+            undecided.append((q, "obligation %s: solver %s (source unchanged w.r.t. baseline: not a violation)"
+                              % (o["name"], o["status"])))
+    # failures found only by the native search (contract holds symbolically or function not verified)
+    for q, f in native_fail.items():
+        if q in reported_fn:
+            continue
+        k = match_known(known, pid, "native:" + q)
+        if k is not None:
+            if (k.get("id") or k.get("obligation")) not in printed:
+                printed.add(k.get("id") or k.get("obligation"))
+                print("KNOWN-FINDING: property=%s %s" % (pid, k.get("what", k.get("obligation"))))
+            continue
+        o = dict(name="native:" + q, kind="bounded", status="failed", backend="native", line=0, path="-")
+        report(o, dict(qual=q, file=None), True, "bounded native search: " + f["text"], pyinputs=dict(recipe=f["recipe"]))
+    for b, v in bounded_viol:
+        k = match_known(known, pid, v["name"])
+        if k is not None:
+            if (k.get("id") or k.get("obligation")) not in printed:
+                printed.add(k.get("id") or k.get("obligation"))
+                print("KNOWN-FINDING: property=%s %s" % (pid, k.get("what", k.get("obligation"))))
+            continue
+        o = dict(name=v["name"], kind="bounded", status="failed", backend="native", line=0, path="-")
+        report(o, dict(qual=b["name"], file=None), True, v.get("text", ""), pyinputs=v.get("inputs"))
+
     for q, why in undecided:
         print("UNDECIDED %s: %s" % (q, (why or "")[:300]))
     for q, why in crashes:
@@ -228,31 +354,42 @@ def run_check(pid, tier, seed, t0):
         exit_code = 3
     elif exit_code == 0 and undecided:
         exit_code = 2
+
+    if update_baseline:
+        if exit_code == 0:
+            os.makedirs(os.path.join(HERE, "baseline"), exist_ok=True)
+            with open(os.path.join(HERE, "baseline", "%s.json" % pid), "w") as f:
+                json.dump(new_baseline, f, indent=1, sort_keys=True)
+            print("baseline/%s.json updated (%d functions)" % (pid, len(new_baseline)))
+        else:
+            print("baseline NOT updated: check did not pass")
+
     level = getattr(mod, "LEVEL", "proof")
     trusted = list(spec.assumptions) + sorted(assumptions)
-    if any("exp_r" in (s or "") for s in []) or getattr(spec, "uses_math", False):
-        trusted.append(axioms.AXIOM_TEXT)
     trusted += getattr(mod, "TRUSTED", [])
+    trusted.append("pyvc encoder (Python subset -> SMT) and the solvers z3 5.1.0 / cvc5 1.4.0")
     cov = dict(obligations=n_obl, discharged=n_dis,
                checker_cmd="cd /verif && ./check %s --tier %s" % (pid, tier),
                trusted_base=trusted, samples=samples, backends=backends, solver_seconds=round(solver_s, 2),
                functions_under_contract=funcs, inlined_callees=sorted(inlined),
                dropped_by_extraction=sorted(dropped), unverified_remainder=list(spec.remainder),
-               bounded_standins=[dict((k, v) for k, v in b.items() if k != "violations") for b in bounded],
+               bounded_standins=bounded,
                undecided=[u[0] for u in undecided], known_findings_hit=len(printed))
     if level != "proof":
         ev = sum(b.get("evaluations", 0) for b in bounded)
         dn = sum(b.get("distinct_nontrivial", 0) for b in bounded)
         cov.update(evaluations=ev, distinct_nontrivial=dn,
-                   rule="; ".join(b.get("rule", "") for b in bounded),
+                   rule="; ".join(str(b.get("rule", b.get("kind", ""))) for b in bounded),
                    samples=[s for b in bounded for s in b.get("samples", [])][:8] or samples)
     evid = dict(property_id=pid, tier=tier, seed=seed, level=level, coverage=cov,
                 assumptions=trusted, wall_s=round(time.time() - t0, 2), violations=nviol)
-    os.makedirs(os.path.join(HERE, "evidence"), exist_ok=True)
-    with open(os.path.join(HERE, "evidence", "%s.json" % pid), "w") as f:
+    evdir = os.environ.get("PYVC_EVIDENCE_DIR") or os.path.join(HERE, "evidence")
+    os.makedirs(evdir, exist_ok=True)
+    with open(os.path.join(evdir, "%s.json" % pid), "w") as f:
         json.dump(evid, f, indent=1, default=str)
-    print("%s: %d/%d obligations discharged over %d functions/lemmas; bounded stand-ins: %d; %.1fs; exit %d" % (
-        pid, n_dis, n_obl, len(funcs), len(bounded), time.time() - t0, exit_code))
+    print("%s: %d/%d obligations discharged over %d functions/lemmas; bounded stand-ins: %d (%d evaluations); "
+          "%.1fs; exit %d" % (pid, n_dis, n_obl, len(funcs), len(bounded),
+                             sum(b.get("evaluations", 0) for b in bounded), time.time() - t0, exit_code))
     return exit_code
 
 
